@@ -160,6 +160,27 @@ pub fn run<A: Cx>(d: &mut Drv<A>, scale: usize, all_offsets: bool) {
                         d.emit(json!({"op": "eq", "x": kop(k0 + 1), "y": opnd("refslice", xs.clone())}));
                         d.emit(json!({"op": "hash", "x": kop(k0)}));
                         d.emit(json!({"op": "hash", "x": kop(k0 + 1)}));
+                        // the same content after a round trip through k-mer operations
+                        let ident: Vec<(&str, Value)> = vec![("rotl", json!([0, n as u32 & 0xffff])), ("rotr", json!([0, 0]))];
+                        for (t, arg) in ident {
+                            d.emit(json!({"op": "kop", "kd": 6, "ks": k0, "t": t, "arg": arg}));
+                            d.emit(json!({"op": "eq", "x": kop(6), "y": kop(k0)}));
+                            d.emit(json!({"op": "eq", "x": kop(6), "y": opnd("slice", xs.clone())}));
+                            d.emit(json!({"op": "hash", "x": kop(6)}));
+                        }
+                        if st == "usize" {
+                            for t in ["rev", "comp", "revcomp"] {
+                                if t != "rev" && A::NAME != "dna" {
+                                    continue;
+                                }
+                                d.emit(json!({"op": "kop", "kd": 6, "ks": k0, "t": t, "via": "copy", "arg": 0}));
+                                d.emit(json!({"op": "kop", "kd": 7, "ks": 6, "t": t, "via": "copy", "arg": 0}));
+                                d.emit(json!({"op": "eq", "x": kop(7), "y": kop(k0)}));
+                                d.emit(json!({"op": "eq", "x": kop(7), "y": opnd("refslice", xs.clone())}));
+                                d.emit(json!({"op": "hash", "x": kop(7)}));
+                                d.emit(json!({"op": "hash", "x": kop(6)}));
+                            }
+                        }
                         if st == "usize" {
                             d.emit(json!({"op": "eq", "x": kop(k0), "y": opnd("seq", whole(4))}));
                             if dy.iter().all(|b| b.is_ascii()) {
